@@ -535,6 +535,8 @@ func init() {
 				}
 				us = append(us, c05PoolBFS(d, pd))
 			}
+			// ... and across a kill and restart of the real binary on its data directory
+			us = append(us, c13BinaryRestart())
 			return us
 		},
 	})
